@@ -532,3 +532,87 @@ Definition stuckh (s : hs) : bool :=
   | FPBlocked, SLWrite => sock_full s && Nat.eqb (sq s) (scap s)
   | _, _ => false
   end.
+
+(* ------------------------------------------------------------------------------------------ *)
+(* Part 5: how the PEER's Stream.close tells us (stream.go close(): "notify peer")               *)
+(* ------------------------------------------------------------------------------------------ *)
+(* After its CAS to closed (old state opened / localHalfClosed) the closing side sends ONE close
+   notification: if the session is already shut down none is needed (the death of the session releases
+   every reader); otherwise, for a stream not in fallback state, a queue element with status closed -
+   and when that put fails (io queue full) it FALLS THROUGH to the socket path; a stream in fallback state
+   always takes the socket path: a typeStreamClose event through waitForSend, which can itself fail only
+   by ConnectionWriteTimeout / session shutdown.  Our side half-closes the stream (PClose1/PClose2 of
+   part 1) when the consumer pops the element or the event loop reads the event. *)
+Record pcs := {
+  pc_closed : bool;      (* the peer's CAS to closed has happened *)
+  pc_notified : bool;    (* its close() has finished the "notify peer" block *)
+  pc_err : bool;         (* ... and returned an error *)
+  pc_sockerr : bool;     (* ghost: that error came from the socket path (waitForSend: write timeout) *)
+  pc_dead : bool;        (* the session is shut down *)
+  pc_fallback : bool;    (* the stream is in fallback state *)
+  pc_qfull : bool;       (* environment: the io queue is full *)
+  pc_sockfail : bool;    (* environment: waitForSend fails (write timeout) *)
+  in_queue : bool;       (* a close element is in the io queue *)
+  in_sock : bool;        (* a typeStreamClose event is in the socket / sendCh *)
+  got_close : bool }.    (* our side has handled the notification: halfClose *)
+
+Inductive pcev :=
+| PcCas | PcNotify | PcEnvQ (full : bool) | PcEnvSock (fail : bool) | PcEnvFallback | PcEnvDead
+| PcDeliverQ | PcDeliverSock.
+
+Definition pcs0 : pcs :=
+  {| pc_closed := false; pc_notified := false; pc_err := false; pc_sockerr := false; pc_dead := false; pc_fallback := false;
+     pc_qfull := false; pc_sockfail := false; in_queue := false; in_sock := false; got_close := false |}.
+
+(* the "notify peer" block; queue_full_falls_through = true is the code that exists *)
+Definition pc_notify (falls_through : bool) (s : pcs) : pcs :=
+  let via_sock :=
+    if pc_sockfail s
+    then {| pc_closed := pc_closed s; pc_notified := true; pc_err := true; pc_sockerr := true; pc_dead := pc_dead s; pc_fallback := pc_fallback s;
+            pc_qfull := pc_qfull s; pc_sockfail := pc_sockfail s; in_queue := in_queue s; in_sock := in_sock s; got_close := got_close s |}
+    else {| pc_closed := pc_closed s; pc_notified := true; pc_err := false; pc_sockerr := pc_sockerr s; pc_dead := pc_dead s; pc_fallback := pc_fallback s;
+            pc_qfull := pc_qfull s; pc_sockfail := pc_sockfail s; in_queue := in_queue s; in_sock := true; got_close := got_close s |} in
+  if pc_dead s
+  then {| pc_closed := pc_closed s; pc_notified := true; pc_err := false; pc_sockerr := pc_sockerr s; pc_dead := pc_dead s; pc_fallback := pc_fallback s;
+          pc_qfull := pc_qfull s; pc_sockfail := pc_sockfail s; in_queue := in_queue s; in_sock := in_sock s; got_close := got_close s |}
+  else if pc_fallback s then via_sock
+  else if pc_qfull s then
+         (if falls_through then via_sock
+          else {| pc_closed := pc_closed s; pc_notified := true; pc_err := true; pc_sockerr := pc_sockerr s; pc_dead := pc_dead s; pc_fallback := pc_fallback s;
+                  pc_qfull := pc_qfull s; pc_sockfail := pc_sockfail s; in_queue := in_queue s; in_sock := in_sock s; got_close := got_close s |})
+  else {| pc_closed := pc_closed s; pc_notified := true; pc_err := false; pc_sockerr := pc_sockerr s; pc_dead := pc_dead s; pc_fallback := pc_fallback s;
+          pc_qfull := pc_qfull s; pc_sockfail := pc_sockfail s; in_queue := true; in_sock := in_sock s; got_close := got_close s |}.
+
+Definition pc_step (ft : bool) (s : pcs) (e : pcev) : pcs :=
+  match e with
+  | PcCas => if pc_closed s then s else
+      {| pc_closed := true; pc_notified := pc_notified s; pc_err := pc_err s; pc_sockerr := pc_sockerr s; pc_dead := pc_dead s; pc_fallback := pc_fallback s;
+         pc_qfull := pc_qfull s; pc_sockfail := pc_sockfail s; in_queue := in_queue s; in_sock := in_sock s; got_close := got_close s |}
+  | PcNotify => if pc_closed s && negb (pc_notified s) then pc_notify ft s else s
+  | PcEnvQ b =>
+      {| pc_closed := pc_closed s; pc_notified := pc_notified s; pc_err := pc_err s; pc_sockerr := pc_sockerr s; pc_dead := pc_dead s; pc_fallback := pc_fallback s;
+         pc_qfull := b; pc_sockfail := pc_sockfail s; in_queue := in_queue s; in_sock := in_sock s; got_close := got_close s |}
+  | PcEnvSock b =>
+      {| pc_closed := pc_closed s; pc_notified := pc_notified s; pc_err := pc_err s; pc_sockerr := pc_sockerr s; pc_dead := pc_dead s; pc_fallback := pc_fallback s;
+         pc_qfull := pc_qfull s; pc_sockfail := b; in_queue := in_queue s; in_sock := in_sock s; got_close := got_close s |}
+  | PcEnvFallback =>
+      {| pc_closed := pc_closed s; pc_notified := pc_notified s; pc_err := pc_err s; pc_sockerr := pc_sockerr s; pc_dead := pc_dead s; pc_fallback := true;
+         pc_qfull := pc_qfull s; pc_sockfail := pc_sockfail s; in_queue := in_queue s; in_sock := in_sock s; got_close := got_close s |}
+  | PcEnvDead =>
+      {| pc_closed := pc_closed s; pc_notified := pc_notified s; pc_err := pc_err s; pc_sockerr := pc_sockerr s; pc_dead := true; pc_fallback := pc_fallback s;
+         pc_qfull := pc_qfull s; pc_sockfail := pc_sockfail s; in_queue := in_queue s; in_sock := in_sock s; got_close := got_close s |}
+  | PcDeliverQ => if in_queue s then
+      {| pc_closed := pc_closed s; pc_notified := pc_notified s; pc_err := pc_err s; pc_sockerr := pc_sockerr s; pc_dead := pc_dead s; pc_fallback := pc_fallback s;
+         pc_qfull := pc_qfull s; pc_sockfail := pc_sockfail s; in_queue := false; in_sock := in_sock s; got_close := true |} else s
+  | PcDeliverSock => if in_sock s then
+      {| pc_closed := pc_closed s; pc_notified := pc_notified s; pc_err := pc_err s; pc_sockerr := pc_sockerr s; pc_dead := pc_dead s; pc_fallback := pc_fallback s;
+         pc_qfull := pc_qfull s; pc_sockfail := pc_sockfail s; in_queue := in_queue s; in_sock := false; got_close := true |} else s
+  end.
+
+Definition pc_run (ft : bool) (evs : list pcev) : pcs := fold_left (pc_step ft) evs pcs0.
+
+(* the reader's side will be told, has been told, does not need to be told (session dead) - or the
+   closing side got ErrConnectionWriteTimeout from the socket path (the socket itself is stuck: the
+   session is about to be declared dead by exitErr) *)
+Definition pc_covered (s : pcs) : bool :=
+  in_queue s || in_sock s || got_close s || pc_dead s || pc_sockerr s.
